@@ -547,6 +547,8 @@ def accept(repo):
 
 
 from . import frag_jp  # noqa: E402,F401  (registers fragment jp_report: tax_report_jp.py, C20)
+from . import frag_full_report  # noqa: E402,F401  (registers the full_report fragment)
+
 
 if __name__ == "__main__":
     repo = sys.argv[2] if len(sys.argv) > 2 else "/repo"
